@@ -708,7 +708,9 @@ type Rec struct {
 // prev (optional): the substitution of the previous concretisation of the same vector; a random half of its values is
 // kept ("the same key with a new serial", "the same user from another address"): values that recur from line to line
 // while the rest changes are what a cache keyed on part of a message gets wrong.
-func Run(v *Vector, r *rand.Rand, vecIdx, conc int, framed bool, fifo **FifoSession, fifoDir string, stream *Stream, prev Subst) Rec {
+// reusePid (optional): the PID token of the record delivered just before this one (a process logs several lines; a PID
+// is used again by a later process): state keyed by the PID must not leak from one line into another.
+func Run(v *Vector, r *rand.Rand, vecIdx, conc int, framed bool, fifo **FifoSession, fifoDir string, stream *Stream, prev Subst, reusePid string) Rec {
 	s := NewSubst(r, v)
 	if prev != nil {
 		keys := make([]string, 0, len(s))
@@ -727,6 +729,17 @@ func Run(v *Vector, r *rand.Rand, vecIdx, conc int, framed bool, fifo **FifoSess
 		pidtok = "<pid.pos>"
 	}
 	pid := Gen(r, pidtok)
+	if reusePid != "" && pidtok == "<pid.pos>" {
+		pid = reusePid
+	}
+	// now and then the PID's digits recur inside the message: the client's port equals the PID
+	if port, ok := s["<port.rand>"]; ok && pidtok == "<pid.pos>" && reusePid == "" && r.Intn(8) == 0 {
+		pid = port
+		if pid == "0" {
+			pid = "22"
+			s["<port.rand>"] = "22"
+		}
+	}
 	s["<PID>"] = pid
 	line := s.Plain(v.Line)
 	rec := Rec{K: "vec", Form: v.Form, Fam: v.Fam, Emits: v.Emits, Pid: pid, Vec: vecIdx, Conc: conc,
@@ -744,6 +757,17 @@ func Run(v *Vector, r *rand.Rand, vecIdx, conc int, framed bool, fifo **FifoSess
 	d := Deliver(Direct, pid, line, 0)
 	rec.Direct = &d
 	if stream != nil {
+		// now and then the same sshd process has just logged a failed attempt from some peer (not recorded here):
+		// nothing of that line may show in what THIS line adds
+		if rec.PidInt > 0 && r.Intn(4) == 0 {
+			primer := []string{
+				"Failed password for primer from 198.51.100.7 port 4444 ssh2",
+				"Invalid user primer from 198.51.100.8 port 4445",
+				"maximum authentication attempts exceeded for primer from 198.51.100.9 port 4446 ssh2",
+				"ROOT LOGIN REFUSED FROM 198.51.100.10 port 4447",
+			}[r.Intn(4)]
+			stream.Deliver(pid, primer)
+		}
 		so := stream.Deliver(pid, line)
 		rec.Stream = &so
 		if r.Intn(3) == 0 {
